@@ -8,7 +8,7 @@ ops:
   {"op":"model","objs":[Obj],"roots":[Root],"text":str}
                                             → {"text":str|null} + recognise(text given)
   {"op":"mm","classes":[Cls],"base":[str],"renderer":"dot"|"puml","linetype":str|null,"text":str}
-                                            → {"text":str|null} + recognise / puml(text given)
+                                            → {"text":str|null,"domain":bool,"nodup_domain":bool (dot)} + recognise / puml(text given)
   {"op":"export","objs":[Obj],"args":{"model":id|null,"repo":null|[MRef],"own":null|[MRef]},"text":str|null}
                                             → {"raises":bool,"roots":[Root]|null,"text":str|null,"domain":bool} + recognise(text given)
                                               (the whole call `model_export_to_file(f, model, repo)`: argument check, choice of the
@@ -180,11 +180,12 @@ def handle (j : Json) : Json :=
         getObj? j "linetype", getStr? j "text" with
     | some cs, some base, some r, some lt, some t =>
       let base := base.map String.toList
-      if r = "dot" then Json.mkObj (("text", optS (mmDot cs base)) :: ("domain", toJson (cs.all clsOkB)) :: recJ t.toList)
+      if r = "dot" then Json.mkObj (("text", optS (mmDot cs base)) :: ("domain", toJson (cs.all clsOkB && mmClosedB cs && mmIdsDistinctB cs))
+        :: ("nodup_domain", toJson (noOuterClassB cs (base ++ [cl!"OBJECT"]))) :: recJ t.toList)
       else if r = "puml" then
         match (if lt.isNull then some none else (asStr? lt).map (some ·.toList)) with
         | some lt =>
-          Json.mkObj [("text", optS (mmPuml cs base lt)), ("domain", toJson (cs.all pclsOkB && linetypeOkB lt)),
+          Json.mkObj [("text", optS (mmPuml cs base lt)), ("domain", toJson (cs.all pclsOkB && linetypeOkB lt && mmClosedB cs)),
             ("puml", match pumlRecognise t.toList with
               | some cls => Json.arr (cls.map S).toArray
               | none => Json.null)]
